@@ -133,6 +133,91 @@ def _run_real(mods, vec, variant, flavour="fake"):
     return canon, problems, (outcome, got_idx)
 
 
+def _run_session(mods, vecs, variant):
+    """Several authenticate() calls on ONE strategy object, each with its own source list.
+    Returns (canonical string, problems)."""
+    AuthStrategy, AuthSource, AuthResult, AuthFailure, SourceResult, excs = mods
+    transport = object()
+    b_classes = excs["B"]
+    raised, returned = {}, {}
+    current = {"srcs": []}
+
+    class Src(AuthSource):
+        def __init__(self, call, i, o):
+            super().__init__(username="u%d_%d" % (call, i))
+            self.call, self.i, self.o = call, i, o
+
+        def authenticate(self, tr):
+            if self.o == "o":
+                val = [[], ["password"]][(self.i + variant) % 2]
+                returned[(self.call, self.i)] = val
+                return val
+            e = excs["A"]("Authentication failed.") if self.o == "a" else \
+                b_classes[(self.i + self.call + variant) % len(b_classes)]("boom")
+            raised[(self.call, self.i)] = e
+            raise e
+
+    class Strat(AuthStrategy):
+        def get_sources(self):
+            yield from current["srcs"]
+
+    strat = Strat(ssh_config=None)
+    handed = []        # (result object, failure exception or None, snapshot of its items when handed out)
+    problems, heads = [], []
+    for call, vec in enumerate(vecs):
+        current["srcs"] = [Src(call, i, o) for i, o in enumerate(vec)]
+        exc = None
+        try:
+            res = strat.authenticate(transport)
+            outcome = "ret"
+        except AuthFailure as e:
+            res, exc, outcome = e.result, e, "fail"
+        except Exception as e:
+            return None, [("escaped:" + exc_site(e), repr(e))]
+        want_idx, want_ret = _expected(vec)
+        if (outcome == "ret") != want_ret:
+            problems.append(("second-call-wrong-ending", "call %d ended with %s" % (call, outcome)))
+        if any(res is h[0] for h in handed):
+            problems.append(("result-object-shared-between-calls", "call %d handed out the result object of an earlier call" % call))
+        items = list(res)
+        got = [(getattr(it.source, "call", None), getattr(it.source, "i", None)) for it in items]
+        if got != [(call, i) for i in want_idx]:
+            problems.append(("result-lists-other-calls-attempts",
+                             "call %d (sources %r) returned a result listing (call, source) %r; this call attempted %r"
+                             % (call, vec, got, [(call, i) for i in want_idx])))
+        for it in items:
+            key = (it.source.call, it.source.i)
+            ref = returned.get(key) if it.source.o == "o" else raised.get(key)
+            if it.result is not ref:
+                problems.append(("outcome-mismatch", "source %r: recorded %r" % (key, it.result)))
+        handed.append((res, exc, items))
+        heads.append((id(res), outcome))
+    # results handed out earlier must not have changed
+    for call, (res, exc, items) in enumerate(handed):
+        now = list(res)
+        if len(now) != len(items) or any(a is not b for a, b in zip(now, items)):
+            problems.append(("earlier-result-changed-retroactively",
+                             "the result handed out by call %d had %d entries, now has %d" % (call, len(items), len(now))))
+        if exc is not None and exc.result is not res:
+            problems.append(("earlier-result-changed-retroactively", "AuthFailure.result rebound"))
+    # canonical: identities numbered in order of first appearance
+    ids = {}
+    for rid, _ in heads:
+        ids.setdefault(rid, len(ids))
+
+    def letter(it):
+        r = it.result
+        if isinstance(r, BaseException):
+            return "a" if type(r) is excs["A"] else "b"
+        return "o=%d" % it.source.i
+    cells = {}
+    for (rid, _), (res, _e, _items) in zip(heads, handed):
+        cells[ids[rid]] = " ".join("%d:%s" % (it.source.i, letter(it)) for it in res)
+    canon = " ".join("%d:%s" % (ids[rid], oc) for rid, oc in heads) + " || " + \
+        " / ".join(cells[i] for i in range(len(ids)))
+    return canon, problems
+
+
 class _FakeTransport:
     """Scripted transport for the real source classes: the i-th auth_* call follows vec[i]."""
 
@@ -208,7 +293,10 @@ def run(ctx):
     ctx.rule = ("exhaustive: every outcome vector of length 0..8 over {o: source returns, a: raises "
                 "AuthenticationException, b: raises another Exception class (10 classes rotated)}; plus random "
                 "vectors of length 0..12 driven through the real NoneAuth/Password/InMemoryPrivateKey/"
-                "OnDiskPrivateKey sources over a scripted transport. distinct = distinct (flavour, vector); "
+                "OnDiskPrivateKey sources over a scripted transport; plus sessions of 2..4 authenticate() calls on ONE "
+                "strategy object (all 169 pairs of vectors of length <= 2 exhaustively, 800 random), checking that each "
+                "call reports only its own attempts, hands out a fresh result object and leaves earlier results "
+                "untouched. distinct = distinct (flavour, vector); "
                 "non-trivial = at least two sources and not all identical outcomes")
     ctx.trust("Python generator / for-break semantics (a generator is advanced once per loop iteration)")
     ctx.build()
@@ -221,6 +309,24 @@ def run(ctx):
         p_ok = ctx.rng.choice([0.0, 0.1, 0.3, 0.6])
         v = "".join("o" if ctx.rng.random() < p_ok else ctx.rng.choice("ab") for _ in range(n))
         vectors.append(("real-sources", v, ctx.rng.randrange(0, 40)))
+    # sessions: 2..4 authenticate() calls on the same strategy object
+    short = ["".join(v) for n in range(0, 3) for v in itertools.product(LETTERS, repeat=n)]
+    sessions = [[a, b] for a in short for b in short]                      # exhaustive: all pairs of length <= 2
+    for _ in range(4000 if ctx.thorough else 800):
+        sessions.append(["".join(ctx.rng.choice(LETTERS) if ctx.rng.random() < 0.8 else "o"
+                                 for _ in range(ctx.rng.randrange(0, 6))) for _ in range(ctx.rng.randrange(2, 5))])
+    sess_replies = ctx.driver("C44", ["session " + "/".join(v or "-" for v in sv) for sv in sessions])
+    for si, sv in enumerate(sessions):
+        canon, problems = _run_session(mods, sv, si % 7)
+        ctx.case(("session", tuple(sv)), sum(1 for v in sv if v) >= 2)
+        ctx.dist("flavour:session")
+        ctx.dist("session-calls:%d" % len(sv))
+        if si % 300 == 0:
+            ctx.sample({"flavour": "session", "vectors": sv, "observed": canon})
+        for sig, detail in problems:
+            ctx.fail(sig, {"flavour": "session (one strategy object)", "vectors": sv}, detail)
+        if canon is not None and sess_replies is not None and sess_replies[si] != canon:
+            ctx.disagree("authenticate x n on one strategy", {"vectors": sv}, sess_replies[si], canon)
     replies = ctx.driver("C44", ["auth " + (v or "-") for _, v, _ in vectors])
     for idx, (flavour, vec, variant) in enumerate(vectors):
         canon, problems, obs = _run_real(mods, vec, variant, flavour)
@@ -243,9 +349,12 @@ META = {
               "outcome) pairs ending in the first success, else all of them (authenticate_spec); success results are "
               "failures followed by the one success (returned_shape); AuthFailure lists every source with its error "
               "(failure_shape); calls made and generator pulls are exactly the attempted sources in order "
-              "(calls_are_attempts); outcome-vector form for all vectors (authenticate_outcome_vector). Tied to "
+              "(calls_are_attempts); outcome-vector form for all vectors (authenticate_outcome_vector); with object identity "
+              "modelled (heap of AuthResult objects): for every prior history of calls on the same strategy object a call "
+              "allocates a fresh result, fills it with exactly the one-shot result of its own sources and changes no "
+              "earlier result (authCall_spec, authCall_eq_one_shot, session_spec, earlier_results_unchanged). Tied to "
               "auth_strategy.py by an exhaustive differential run over all 9841 outcome vectors of length 0..8 plus "
-              "random vectors through the real source classes on every check."),
+              "random vectors through the real source classes and sessions of several calls on one strategy object on every check."),
     "note": ("Trusted: Lean kernel + 3 standard axioms; the harness; CPython for/break/generator semantics. "
              "`except Exception` is modelled for Exception subclasses only (BaseException such as KeyboardInterrupt "
              "propagates and is outside the statement). Logging is not modelled."),
